@@ -75,6 +75,7 @@ pub async fn dispatch_command<W: AsyncWrite + Unpin>(
                 writer,
                 renderer,
             )
+            .with_identity(auth_manager, user_id)
             .handle()
             .await
         }
